@@ -54,7 +54,7 @@ def gen(rng, tier, index):
                 ops[j]["delay"] = pause
         ports.append({"ops": ops, "loop": True})
     return {"core": core, "ports": ports, "mode": mode,
-            "limits": {"run_for_bounds": 2.2, "tail": 10 ** 9, "wait_bound": "auto", "hang_ok": True}}
+            "limits": {"run_for_bounds": 2.2, "tail": 10 ** 9, "wait_bound": "auto", "hang_ok": True, "drain_after": 1.5}}
 
 
 def classify(scn, viol):
